@@ -117,17 +117,42 @@ static Script script;
 
 static void * fresh(int o) { std::memset(g_storage[o], W_FILL, sizeof(g_storage[o])); return g_storage[o]; }
 
+// the handle every addition returned, kept for "rh" (removal through the handle kept from the addition, on the object it was issued by)
+// (a plain array: keeping a handle must not allocate, the fault worlds count every allocation as a fault point of the library)
+// `owner` follows the rules of ObjGen / TraceObj mechanically (which kept handles still have a promised meaning) - it only decides which
+// probes the epilogue issues, TraceObj judges them
+struct Kept { Obj::Handle h; int c; int owner; };
+enum { MaxKept = 64 };
+static Kept g_kept[MaxKept];
+static void retireKept(int o) { for(int i = 0; i < MaxKept; ++i) if(g_kept[i].owner == o) g_kept[i].owner = 0; }
+static void forgetKept() { for(int i = 0; i < MaxKept; ++i) g_kept[i] = Kept(); }
 static void append(int o, int c)
 {
 	int id = ++g_ncb;
+	Obj::Handle h;
 #if W_KIND == 4
-	if(c == 1) O[o]->append(CbA(id)); else O[o]->append(CbB(id));
+	if(c == 1) h = O[o]->append(CbA(id)); else h = O[o]->append(CbB(id));
 #elif HETER
-	if(c == 1) O[o]->appendListener(1, CbA(id)); else O[o]->appendListener(1, CbB(id));
+	if(c == 1) h = O[o]->appendListener(1, CbA(id)); else h = O[o]->appendListener(1, CbB(id));
 #else
-	O[o]->appendListener(c, CbA(id));
+	h = O[o]->appendListener(c, CbA(id));
 #endif
+	if(id < MaxKept) { g_kept[id].h = h; g_kept[id].c = c; g_kept[id].owner = o; }
 	evx("al", o, c, 0, id);
+}
+static void removeStored(int o, int id)
+{
+	if(id < 1 || id >= MaxKept || id > g_ncb) { std::fprintf(stderr, "rh: no handle kept for %d\n", id); std::exit(2); }
+	Kept * it = &g_kept[id];
+	bool r;
+#if W_KIND == 4
+	r = O[o]->remove(it->h);
+#elif HETER
+	r = O[o]->removeListener(1, it->h);
+#else
+	r = O[o]->removeListener(it->c, it->h);
+#endif
+	evx("rh", o, id, 0, r ? 1 : 0);
 }
 static void removeFirst(int o, int c)
 {
@@ -189,6 +214,7 @@ static void step(const Op & op)
 	const int a = op.a, b = op.b;
 	if(k == "al") append(a, b);
 	else if(k == "rl") removeFirst(a, b);
+	else if(k == "rh") removeStored(a, b);
 #if W_KIND != 2 && W_KIND != 4
 	else if(k == "af") { int id = ++g_nflt; O[a]->appendFilter(FlA(id)); evx("af", a, 0, 0, id); }
 #endif
@@ -202,11 +228,11 @@ static void step(const Op & op)
 #endif
 #endif
 	else if(k == "cc") { O[b] = new (fresh(b)) Obj(*O[a]); evx("cc", a, b, 0, 0); }
-	else if(k == "mc") { O[b] = new (fresh(b)) Obj(std::move(*O[a])); evx("mc", a, b, 0, 0); }
-	else if(k == "ca") { *O[b] = *O[a]; evx("ca", a, b, 0, 0); }
-	else if(k == "ma") { *O[b] = std::move(*O[a]); evx("ma", a, b, 0, 0); }
-	else if(k == "sw") { O[a]->swap(*O[b]); evx("sw", a, b, 0, 0); }
-	else if(k == "de") { O[a]->~Obj(); O[a] = 0; evx("de2", a, 0, 0, 0); }
+	else if(k == "mc") { retireKept(a); O[b] = new (fresh(b)) Obj(std::move(*O[a])); evx("mc", a, b, 0, 0); }
+	else if(k == "ca") { if(a != b) retireKept(b); *O[b] = *O[a]; evx("ca", a, b, 0, 0); }
+	else if(k == "ma") { retireKept(a); retireKept(b); *O[b] = std::move(*O[a]); evx("ma", a, b, 0, 0); }
+	else if(k == "sw") { if(a != b) { retireKept(a); retireKept(b); } O[a]->swap(*O[b]); evx("sw", a, b, 0, 0); }
+	else if(k == "de") { retireKept(a); O[a]->~Obj(); O[a] = 0; evx("de2", a, 0, 0, 0); }
 	else { std::fprintf(stderr, "unknown op %s\n", k.c_str()); std::exit(2); }
 }
 
@@ -223,6 +249,12 @@ static void epilogue()
 		process(o);
 		{ bool r = O[o]->emptyQueue(); evx("eq", o, 0, 0, r ? 1 : 0); }
 #endif
+		for(int c = 1; c <= 2; ++c) dispatch(o, c);
+	}
+	// the handles kept from the additions still mean their listeners (self assignment / self swap / copies of the object changed nothing for them)
+	for(int id = 1; id <= g_ncb && id < MaxKept; ++id) if(g_kept[id].owner != 0 && O[g_kept[id].owner]) {
+		const int o = g_kept[id].owner;
+		removeStored(o, id);
 		for(int c = 1; c <= 2; ++c) dispatch(o, c);
 	}
 	// independence probe: strip one object completely, the others must be unaffected
@@ -259,7 +291,7 @@ int main(int argc, char ** argv)
 			for(long k = 1; k < 64; ++k) {
 				for(int o = 1; o <= MaxO; ++o) O[o] = 0;
 				O[1] = new (fresh(1)) Obj();
-				g_ncb = g_nflt = 0;
+				g_ncb = g_nflt = 0; forgetKept(); forgetKept();
 				for(size_t i = 0; i + 1 < script.size(); ++i) step(script[i]);
 				const Op & target = script.back();
 				bool threw = false;
@@ -285,7 +317,7 @@ int main(int argc, char ** argv)
 		}
 		for(int o = 1; o <= MaxO; ++o) O[o] = 0;
 		O[1] = new (fresh(1)) Obj();
-		g_ncb = g_nflt = 0;
+		g_ncb = g_nflt = 0; forgetKept();
 		bool whole = false;
 		for(const Op & op : script) { step(op); if(op.k == "cc" || op.k == "mc" || op.k == "ca" || op.k == "ma" || op.k == "sw") whole = true; }
 		epilogue();
